@@ -632,6 +632,51 @@ def run(ctx):
         ctx.check(len(whole) >= 1 and all(not (nv_ in f.subtree_refs(i)) for i in whole) and q.always_before_exit(f, [j for j in f.all_nodes() if f.N(j)['k'] in ('WhileStmt', 'ForStmt') and any(f.contains(j, w_) for w_ in whole)] or whole) if whole else False,
                   R8, 'advance<%s>:remaining-entries-kept-whole' % tagb, 'entries after the cut are not all kept', f.where)
     ctx.floor(R8, 8)
+    # ---------------- R12 output stream buffers keep byte 0xFF
+    R12 = ctx.rule('C03.R12', 'the output stream buffers of the response (tee, gzip, device, buffered device) test the overflowing character against EOF as the int it arrived as: no comparison with EOF on a value '
+                              'narrowed to char (byte 0xFF would read as "nothing to store" and vanish from the page)')
+    ovs = sorted([g for g in P.fns.values() if g.short == 'overflow' and g.file.endswith('/src/http_response.cpp') and g.body is not None and len(g.params) == 1], key=lambda g: g.id)
+    ctx.require(len(ovs) >= 4 or ctx.violations, 'C03.R12: overflow(int) overrides of http_response.cpp not found (%d)' % len(ovs))
+    for f in ovs:
+        bad = q.narrowed_char_eof_tests(f)
+        cp_ = q.param_by_index(f, 0)
+        tests = [i for i in f.all_nodes() if f.N(i)['k'] == 'BinaryOperator' and f.N(i).get('op') in ('==', '!=') and any(f.const_value(x) == -1 for x in f.N(i)['ch'])]
+        ctx.check(not bad and all(cp_ in f.subtree_refs(i) for i in tests), R12, '%s::overflow:EOF-tested-on-the-int' % (f.record or '?').rsplit('::', 1)[-1],
+                  'the overflowing character is compared with EOF after narrowing to char: byte 0xFF is dropped', f.loc(bad[0]) if bad else f.where)
+    ctx.floor(R12, 4)
+    # ---------------- R13 the header map keeps different names apart
+    R13 = ctx.rule('C03.R13', 'response header map: its comparator orders names as their lower-cased spellings are ordered (E3 over a grid of header names, including names that are prefixes of one another), so two '
+                              'names collide exactly when they are the same name up to case - a comparator that calls a name and its prefix equivalent makes one header overwrite the other')
+    from vlib import absint as _a13
+    icmp = [g for g in P.fns.values() if g.short == 'operator()' and 'icompare_type' in (g.record or '') and g.body is not None and len(g.params) == 2]
+    ctx.require(len(icmp) >= 1, 'C03.R13: response_headers icompare_type::operator() not found')
+    names13 = ['', 'A', 'a', 'B', 'Link', 'link', 'LINK', 'Link-Template', 'Accept', 'Accept-Ranges', 'Content-Length', 'Content-Type', 'content-type', 'Content-Security-Policy', 'Content-Security-Policy-Report-Only', 'X', 'x-y', 'X_Y', '[', '@']
+    low = lambda s_: ''.join(chr(ord(c) + 32) if 'A' <= c <= 'Z' else c for c in s_)
+
+    def h_size(it, fn_, i_, env_):
+        o_ = it.rvalue(fn_, fn_.obj(i_), env_)
+        o_ = _a13.PV(o_, 0) if isinstance(o_, _a13.Arr) else o_
+        if not isinstance(o_, _a13.PV):
+            raise _a13.Unsupported('size() of something that is not a modelled string')
+        return _a13.AV.const(len(o_.arr.elems) - 1 - o_.off)
+    bad = []
+    npairs = 0
+    for x in names13:
+        for y in names13:
+            it = _a13.Interp(P, [], hooks={'std::basic_string::size': h_size, 'std::basic_string::length': h_size})
+            it.fields = {}
+            ax = _a13.Arr([_a13.AV.const(ord(c)) for c in x] + [_a13.AV.const(0)], 'left')
+            ay = _a13.Arr([_a13.AV.const(ord(c)) for c in y] + [_a13.AV.const(0)], 'right')
+            try:
+                rv = it.call_fn(icmp[0], [_a13.Cell(_a13.PV(ax, 0)), _a13.Cell(_a13.PV(ay, 0))])
+            except _a13.OutOfBounds as e:
+                bad.append('%r vs %r: %s' % (x, y, e))
+                continue
+            npairs += 1
+            if not (isinstance(rv, _a13.AV) and rv.is_const() and bool(rv.lo) == (low(x) < low(y))):
+                bad.append('less(%r, %r) = %r, the lower-cased names compare %s' % (x, y, rv, low(x) < low(y)))
+    ctx.check(not bad, R13, 'icompare_type:order-of-lower-cased-names', '; '.join(bad[:2]), icmp[0].where, detail={'pairs': npairs})
+    ctx.floor(R13, 1)
     ctx.assume('append_pending: the sum of the entry sizes of a const_buffer equals its bytes_count() (booster::aio::const_buffer contract)')
 
 
